@@ -11,7 +11,10 @@
 namespace {
 using namespace sim;
 
-enum LKind { L_READ = 1, L_READ_MID = 2, L_WRITE = 3, L_WRITE_EXPLICIT = 4, L_REHYDRATE = 5, L_OBSOLETE = 6, L_READ_MOVED = 7 };
+enum LKind { L_READ = 1, L_READ_MID = 2, L_WRITE = 3, L_WRITE_EXPLICIT = 4, L_REHYDRATE = 5, L_OBSOLETE = 6, L_READ_MOVED = 7, L_WRAP_PROBE = 8 };
+// L_WRAP_PROBE (a = log2 of the number of write cycles): one thread keeps a read section open across 2^a complete write
+// cycles of the same lock, executed at full speed with hooks off; the section must then fail its check and its upgrade.
+// Probes the width of the version arithmetic (a version that recurs after 2^30 or 2^32 cycles validates a stale section).
 // L_READ_MOVED: the section is move-assigned into a default-constructed read_critical_section (as the tree's descent loops do)
 // and all reads and the validation go through the destination object
 
@@ -44,13 +47,20 @@ struct Ev {
 
 struct LockEngine final : Engine {
   const char* name() const override { return "locksim"; }
-  uint64_t schedules_per_program() const override { return 16; }
+  uint64_t schedules_per_program() const override { const char* fe = getenv("SIM_FOCUS"); return fe && atoi(fe) == 77 ? 1 : 16; }
 
   Case generate(uint64_t seed, const std::string& tier) override {
     Case c;
     c.engine = name();
     c.seed = seed;
     Rng r = stream(seed, S_WORKLOAD);
+    const char* fe = getenv("SIM_FOCUS");
+    if (fe && atoi(fe) == 77) {
+      static const int64_t exps[] = {30, 31, 32, 30, 32, 31, 33, 30};
+      Op o; o.kind = L_WRAP_PROBE; o.a = tier == "thorough" ? exps[seed % 8] : 30;
+      c.threads.push_back({o});
+      return c;
+    }
     const int nthreads = static_cast<int>(r.range(2, 3));
     const int maxops = tier == "thorough" ? 6 : 5;
     const bool allow_obsolete = r.chance(0.6);
@@ -77,6 +87,7 @@ struct LockEngine final : Engine {
 
   std::string describe(const Op& o) const override {
     switch (o.kind) {
+      case L_WRAP_PROBE: return "read section kept open across 2^" + std::to_string(o.a) + " write cycles, then check + upgrade";
       case L_READ: return "read-section";
       case L_READ_MOVED: return "read-section-move-assigned-to-another-object";
       case L_READ_MID: return "read-section-with-interim-check";
@@ -123,6 +134,25 @@ struct LockEngine final : Engine {
           const uint64_t b = sh->b.load();
           const uint64_t c2 = sh->c.load();
           validate(true, rcs, true, a, b, c2);
+          break;
+        }
+        case L_WRAP_PROBE: {
+          HooksOff off;
+          // one completed write first, so that the section is opened on a lock with history
+          { auto w0 = sh->lock.try_read_lock(); optimistic_lock::write_guard g0{std::move(w0)}; sh->a = 1; sh->b = 1; sh->c = 1; }
+          auto held = sh->lock.try_read_lock();
+          auto held2 = sh->lock.rehydrate_read_lock(held.get());
+          const uint64_t cycles = 1ULL << o.a;
+          for (uint64_t n = 0; n < cycles; n++) {
+            auto rcs = sh->lock.try_read_lock();
+            optimistic_lock::write_guard wg{std::move(rcs)};
+            sh->a = n + 2;
+          }
+          const uint64_t v = sh->a.load();
+          sh->b = v; sh->c = v;
+          if (held.check()) die("lock-version-wrap", "a read section kept open across 2^" + std::to_string(o.a) + " complete write cycles of its lock still passes check(): the lock version recurred");
+          optimistic_lock::write_guard up{std::move(held2)};
+          if (!up.must_restart()) die("lock-version-wrap", "a read section kept open across 2^" + std::to_string(o.a) + " complete write cycles was upgraded to a write guard: the lock version recurred");
           break;
         }
         case L_READ_MOVED: {
